@@ -207,6 +207,50 @@ def c07_units(tier, seed):
                                      'expected': 'non-dimensional value times R(units) (and T)'})
             if len(samples) < 3:
                 samples.append({'library': libname, 'smiles': smi, 'units': ok_units})
+    # (ii) an estimate keeps ITS molecule: decompose m1, estimate, decompose m2 with the same library, then ask the first estimate again
+    for libname, smis in mols.items():
+        lib = real.load(libname, fresh=True)
+        for m1, m2 in zip(smis, smis[1:] + smis[:1]):
+            k1, d1 = real.outcome(lib.GetDescriptors, m1)
+            if k1 == 'exc':
+                continue
+            with real.quiet():
+                e1 = lib.Estimate(d1, 'thermochem')
+                T = (e1.get_range() or (298.15, 298.15))[0]
+                first = real.outcome(e1.get_SoR, T, S_elements=True)
+                real.outcome(lib.GetDescriptors, m2)
+                again = real.outcome(e1.get_SoR, T, S_elements=True)
+                G1 = real.outcome(e1.get_G, T, 'kJ/mol', S_elements=True)
+            n += 1
+            sele = sum(c.S_elements[a.GetAtomicNum()] for a in Chem.AddHs(Chem.MolFromSmiles(m1)).GetAtoms())
+            plain = real.outcome(e1.get_SoR, T)
+            ok = first[0] == again[0] == plain[0] == 'ok' and real.close(first[1], again[1], 1e-12, 1e-12) and real.close(plain[1] - again[1], sele, 1e-10, 1e-10)
+            if not ok and len(viol) < 14:
+                viol.append({'id': '%s-%s-held-estimate' % (libname, m1), 'input': {'library': libname, 'estimate of': m1, 'then decomposed': m2, 'T': T},
+                             'observed': {'S/R rel. elements at once': first, 'after the other decomposition': again, 'S/R': plain}, 'expected': 'S/R - %r both times' % sele,
+                             'script': "import pgradd.ThermoChem\nfrom pgradd.GroupAdd.Library import GroupLibrary\nlib = GroupLibrary.Load(%r)\ne = lib.Estimate(lib.GetDescriptors(%r), 'thermochem')\na = e.get_SoR(%r, S_elements=True)\nlib.GetDescriptors(%r)\nprint(a, e.get_SoR(%r, S_elements=True))   # expected twice the same\n" % (libname, m1, T, m2, T)})
+    # (iii) the correlations of single groups (with and without heat-capacity data), away from their reference temperature
+    for libname in (['BensonGA', 'SalciccioliGA2012'] if tier == 'quick' else real.LIBS):
+        lib = real.load(libname)
+        gs = real.thermo_groups(lib)
+        for g in (rnd.sample(gs, min(14, len(gs))) if tier == 'quick' else gs):
+            corr = lib[g]['thermochem']
+            for T in (corr.T_ref, corr.T_ref + 37.5):
+                for u in ok_units[:3]:
+                    RK = c.R(u + '/K')
+                    n += 1
+                    with real.quiet():
+                        h, s_, cp = real.outcome(corr.get_HoRT, T), real.outcome(corr.get_SoR, T), real.outcome(corr.get_CpoR, T)
+                        H, S, Cp, G = real.outcome(corr.get_H, T, u), real.outcome(corr.get_S, T, u + '/K'), real.outcome(corr.get_Cp, T, u + '/K'), real.outcome(corr.get_G, T, u)
+                    bad = []
+                    for nm, dim, nd, f in (('H', H, h, T * RK), ('S', S, s_, RK), ('Cp', Cp, cp, RK)):
+                        if dim[0] != nd[0] or (dim[0] == 'ok' and not real.close(dim[1], nd[1] * f, 1e-12, 0)):
+                            bad.append((nm, dim, nd))
+                    if h[0] == s_[0] == 'ok' and (G[0] != 'ok' or not real.close(G[1], (h[1] - s_[1]) * T * RK, 1e-10, 1e-12 * abs(h[1] * T * RK))):
+                        bad.append(('G', G, (h[1] - s_[1]) * T * RK))
+                    if bad and len(viol) < 16:
+                        viol.append({'id': '%s-group-%s-%s-%g' % (libname, g, u.replace('/', '_'), T), 'input': {'library': libname, 'group': str(g), 'units': u, 'T': T}, 'observed': [str(b) for b in bad],
+                                     'expected': 'non-dimensional value of the same correlation times R(units) (and T); same failure when the non-dimensional one fails'})
     return {'name': 'dimensional-getters', 'evaluations': n, 'distinct_nontrivial': sum(len(v) for v in mols.values()), 'violations': viol, 'samples': samples,
             'bound': '%d molecules x 2 temperatures x %d unit strings' % (sum(len(v) for v in mols.values()), len(ok_units)),
             'rule': 'a case is (molecule, temperature, unit); molecules distinct'}
